@@ -4,7 +4,7 @@ Streams
   C12.hist   a hand-written netCDF-4 file of 1-3 integer variables (value = variable*100000 + flat
              offset), read with cfdm.read(netcdf_backend=), then a history of Data operations
              (copy / subspace / to_memory / array / assignment / equals / first,last,second element /
-             str / transpose / insert_dimension / metadata queries).  After every operation: what it
+             str / transpose / insert_dimension / squeeze / flatten / metadata queries).  After every operation: what it
              returned, whether the result lives on disk or in memory (Data.source()), the calls of the
              file arrays' __getitem__ it caused (file, address, positions) and the number of open
              descriptors (/proc/self/fd).  Compared with the Lean model; judged by a numpy simulation
@@ -57,13 +57,31 @@ REQUIRED = [
     "C12_backend_reads_superset",
     "C12_h5_old_counterexample",
     "C12_old_getitem_leaks_counterexample",
+    "C12_h5_negative_step_slice",
+    "C12_h5_wrong_anchor_counterexample",
+    "C12_h5_variable_subspace_axis",
+    "C12_h5_variable_subspace",
+    "C12_h5_index_refines",
+    "C12_h5_reads_sorted_distinct",
+    "C12_h5_old_index_counterexample",
+    "C12_dtype_consistent",
+    "C12_dtype_old_partial",
+    "C12_dtype_old_counterexamples",
+    "C12_dtype_promotion",
 ]
-BUDGET = {"quick": 1000, "thorough": 20000}
+BUDGET = {"quick": 1300, "thorough": 22000}
 QUICK_JOBS = 6
 RULE = (
     "hist: 1-3 variables of rank 0-3 (extents 1-5) in 1-2 files x backend {None, netCDF4, h5netcdf} x histories of "
     "1-9 Data operations with C03's index grammar (int, slice any sign/out of range, unsorted/negative/repeated "
-    "lists, bool arrays, Ellipsis, omitted axes); read: 10 kinds of hand-encoded dataset + cfdm.write of random "
+    "lists, bool arrays, Ellipsis, omitted axes); vs: a field of rank 1-3 (extents up to 13 / 7 / 4) whose data variable and "
+    "every coordinate variable with its bounds are read lazily, subspaced with negative-step slices of every residue of "
+    "(start-stop-1) mod |step| (steps 1-5 and size+1, bounds absent / negative / out of range / empty selections), positive "
+    "steps, sorted / descending / unsorted / repeated / negative integer lists, boolean arrays and integers, through "
+    "Field.__getitem__ or construct by construct, on h5netcdf (3/5), netCDF4 and the default backend; dtype: one target "
+    "variable in each of 6 roles x 10 stored types x scale_factor / add_offset absent or of any of the 10 types with neutral "
+    "or non-neutral value x _Unsigned x unpack x mask x byte order x fill value x backend; promote: all 100 type pairs; "
+    "read: 10 kinds of hand-encoded dataset + cfdm.write of random "
     "fields + re-encoded test-suite seeds x the three backends x a field-level history; err: raising operations. "
     "non-trivial = hist with at least one operation that inspects values / read of a dataset with at least two "
     "variables; distinct = distinct (stream, dataset description, backend, history)"
@@ -85,8 +103,18 @@ ASSUMPTIONS = [
     "user indices follow C03's exclusion for slices with negative step and start below -size (open C03 finding)",
     "descriptor counts are those of /proc/self/fd after the call returned or its exception was dropped; library "
     "internal caching is not visible",
-    "the model is the code after fixes/C12-h5netcdf-index-order.patch; on the unpatched tree the h5netcdf refusals "
-    "surface as known findings",
+    "the model is the code after fixes/C12-h5netcdf-index-order.patch (applied: 4483ba2); on a tree without it the "
+    "h5netcdf refusals surface as violations",
+    "vs stream: what the backend variable (netCDF4.Variable / h5netcdf variable) is asked for by the first access is "
+    "observed through a forwarding proxy handed to netcdf_indexer and compared, as ordered per-axis positions, with "
+    "the model of _variable_subspace (h5py: the distinct requested positions in storage order); the oracle demands "
+    "of it only that nothing outside the requested part is read when at most one axis has a list index",
+    "dtype stream: values are small whole numbers; the reference for the delivered values is netCDF4-python's own "
+    "unpacking (compared as float64); the byte order, fill value and mask setting are sampled, not modelled; strings "
+    "and variable-length types are exercised by the read stream only; the model mirrors _create_netcdfarray / "
+    "_unpacked_dtype as at /repo HEAD (a007f9a) and prints what the code before that repair advertised beside it "
+    "(evidence only); the oracle (Data.dtype == dtype of the array == dtype after to_memory / subspace / copy, "
+    "equals, same file read twice, what cfdm.write stores) decides the property",
 ]
 
 _cfdm = None
@@ -143,7 +171,7 @@ class _VarProxy:
     def __getitem__(self, key):
         v = object.__getattribute__(self, "_v")
         try:
-            VLOG.append((tuple(int(n) for n in v.shape), key))
+            VLOG.append((tuple(int(n) for n in v.shape), key, str(getattr(v, "name", "")).split("/")[-1]))
         except Exception:
             pass
         return v[key]
@@ -235,7 +263,7 @@ def be_name(be):
 # ================================================================ C12.hist
 VBASE = 100000
 OPS_W = [("sub", 22), ("arr", 12), ("copy", 8), ("tomem", 9), ("set", 7), ("eq", 8), ("first", 5), ("last", 5),
-         ("second", 3), ("str", 5), ("tr", 5), ("ins", 4), ("edit", 7)]
+         ("second", 3), ("str", 5), ("tr", 5), ("ins", 4), ("sq", 4), ("fl", 4), ("edit", 7)]
 
 
 def _safe_index(rng, shape, be):
@@ -285,8 +313,6 @@ def gen_hist(rng):
         shp = shapes[i]
         if kind == "sub":
             ix = _safe_index(rng, shp, be)
-            if be == "h5netcdf" and h5_unsafe(ix, shp) and rng.random() < 0.8:
-                ix = [("s", None, None, None)] * len(shp)
             if shp and all(n > 0 for n in shp) and rng.random() < 0.04:
                 # a list index out of range: refused after the dataset has been opened
                 ax = rng.randrange(len(shp))
@@ -335,6 +361,14 @@ def gen_hist(rng):
                 shapes[i] = [1] + shp
             else:
                 shapes.append([1] + shp)
+        elif kind in ("sq", "fl"):
+            inplace = rng.random() < 0.4
+            ops.append([kind, i, int(inplace)])
+            new = [n for n in shp if n != 1] if kind == "sq" else (list(shp) if len(shp) <= 1 else [int(np.prod(shp))])
+            if inplace:
+                shapes[i] = new
+            else:
+                shapes.append(new)
     return dict(be=be, vars=vars_, ops=ops, eseed=rng.randrange(1 << 30))
 
 
@@ -525,6 +559,14 @@ def _impl_hist(c):
                     heap.append(d.insert_dimension(0))
                     res = len(heap) - 1
                     obs = f"h{res}"
+            elif kind in ("sq", "fl"):
+                meth = d.squeeze if kind == "sq" else d.flatten
+                if op[2]:
+                    meth(inplace=True)
+                else:
+                    heap.append(meth())
+                    res = len(heap) - 1
+                    obs = f"h{res}"
             else:
                 raise fw.HarnessError("unknown op " + kind)
         except fw.HarnessError:
@@ -540,7 +582,7 @@ def _impl_hist(c):
         st = _state(heap[res]) if res < len(heap) and heap[res] is not None else "-"
         fd = nfd() - base
         vlog = []
-        for shp, key in VLOG:
+        for shp, key, _nm in VLOG:
             try:
                 vlog.append(positions(key, shp))
             except Exception:
@@ -757,6 +799,22 @@ def oracle_hist(c):
                 back[i] = None
             else:
                 new_sim, new_back = a[np.newaxis].copy(), None
+        elif kind in ("sq", "fl"):
+            # nothing to do (no size one axis / at most one axis): nothing may be fetched, the data stay where they are
+            noop = (1 not in a.shape) if kind == "sq" else a.ndim <= 1
+            r_ = a.copy() if noop else (np.squeeze(a) if kind == "sq" else a.reshape(a.size)).copy()
+            if noop:
+                nb = back[i]
+            else:
+                allow(back[i])
+                nb = None
+            if op[2]:
+                sim[i] = r_
+                back[i] = nb
+            else:
+                new_sim, new_back = r_, nb
+            if noop and r["log"]:
+                return where + f"{kind} with nothing to do fetched data"
         # ---- fetch rules
         for var, el in fetched.items():
             if var not in allowed:
@@ -1117,7 +1175,7 @@ def _impl_read(c):
                 def full(n):
                     shp = roles[n][0]
                     return n in log and len(log[n]) == (int(np.prod(shp)) if shp else 1) and len(log[n]) > 0
-                st = ",".join(f"{k}:{'?' if (res.get(n) == 'D' and full(n) and roles[n][1] in ('connT', 'conn')) else res.get(n, '?')}"
+                st = ",".join(f"{k}:{'?' if (res.get(n) == 'D' and full(n) and roles[n][1] in ('connT', 'connS', 'conn')) else res.get(n, '?')}"
                               for k, n in enumerate(names))
                 ents = []
                 for nv in sorted(log):
@@ -1253,8 +1311,8 @@ def compare_reference(path, fs, roles):
         for nv, d in walk_data(f):
             if nv not in ref or nv not in roles or isinstance(ref[nv], Exception):
                 continue
-            if roles[nv][1] in ("sample", "nodesFlat", "connT", "conn", "count", "index", "listVar"):
-                if d.get_compression_type() or roles[nv][1] in ("nodesFlat", "connT", "conn"):
+            if roles[nv][1] in ("sample", "nodesFlat", "connT", "connS", "conn", "count", "index", "listVar"):
+                if d.get_compression_type() or roles[nv][1] in ("nodesFlat", "connT", "connS", "conn"):
                     continue
             try:
                 if d.get_compression_type():
@@ -1502,7 +1560,7 @@ def oracle_read(c):
             if nv in roles and roles[nv][1] not in ("scalarCoord", "scalarBounds", "count", "index"):
                 if nv in inmem:
                     continue  # reported above
-                if roles[nv][1] in ("nodesFlat", "connT"):
+                if roles[nv][1] in ("nodesFlat", "connT", "connS"):
                     fails.append(f"read({be}) brought {nv} [{roles[nv][1]}] into memory (and dropped it)")
                 else:
                     fails.append(f"read({be}) fetched values of {nv} [{roles[nv][1]}]")
@@ -1687,13 +1745,733 @@ def impl_err(c):
     return ";".join(out)
 
 
+
+# ================================================================ C12.vs
+# `_variable_subspace` / `_index` of netcdf_indexer: strided, reversed, unsorted and repeated subspaces of lazily
+# read data AND of lazily read coordinates with bounds, on both backends, partial access (subspace, then
+# realise) against whole-array access.
+def gen_vs_axis(rng, n):
+    r = rng.random()
+    if r < 0.42:
+        step = -rng.choice([1, 2, 2, 3, 3, 3, 4, 4, 5, 5, n + 1])
+        if rng.random() < 0.75:
+            # bounds that leave something to select, so that every residue of (start - stop - 1) mod |step| turns up
+            start = rng.choice([None, rng.randint(n // 2, n + 2), rng.randint(-max(1, n // 2), -1)])
+            stop = rng.choice([None, rng.randint(0, max(0, n // 2)), rng.randint(-n - 2, -n + n // 2)])
+        else:
+            start = rng.choice([None, rng.randint(-n, n + 2)])
+            stop = rng.choice([None, rng.randint(-n - 2, n + 2)])
+        return ("s", start, stop, step)
+    if r < 0.55:
+        step = rng.choice([None, 1, 2, 3, n + 1])
+        return ("s", rng.choice([None, rng.randint(-n - 2, n + 2)]), rng.choice([None, rng.randint(-n - 2, n + 2)]), step)
+    if r < 0.84:
+        m = rng.randint(2, min(7, n + 3))
+        q = rng.random()
+        if q < 0.2:
+            l = sorted(rng.sample(range(n), min(m, n)))
+        elif q < 0.4:
+            l = sorted(rng.sample(range(n), min(m, n)), reverse=True)
+        elif q < 0.7:
+            l = [rng.randint(-n, n - 1) for _ in range(m)]
+        else:
+            base = [rng.randint(-n, n - 1) for _ in range(max(1, m // 2))]
+            l = [rng.choice(base) for _ in range(m)]
+        if len(l) == 1:
+            l = l * 2
+        return ("l", l)
+    if r < 0.91:
+        bs = [rng.random() < 0.5 for _ in range(n)]
+        if not any(bs):
+            bs[rng.randrange(n)] = True
+        return ("b", bs)
+    if r < 0.96:
+        return ("i", rng.randint(-n, n - 1))
+    return ("s", None, None, None)
+
+
+def gen_vs(rng):
+    nd = rng.choice([1, 1, 1, 2, 2, 3])
+    top = {1: 13, 2: 7, 3: 4}[nd]
+    shape = [rng.randint(1, top) for _ in range(nd)]
+    ix = [gen_vs_axis(rng, n) for n in shape]
+    be = rng.choice(["h5netcdf", "h5netcdf", "h5netcdf", "netCDF4", None])
+    return dict(shape=shape, ix=[list(t) for t in ix], be=be, mode=rng.choice(["field", "field", "parts"]))
+
+
+def _vs_reversed(t, n):
+    """Independent restatement of the 2-vertex bounds rule: the vertex axis is flipped when the cells are
+    selected in descending order (negative slice step; a sequence whose last entry lies before its first)."""
+    if t[0] == "s":
+        return t[3] is not None and t[3] < 0
+    if t[0] == "l" and len(t[1]) > 1:
+        return t[1][-1] % n < t[1][0] % n
+    if t[0] == "b":
+        return False
+    return False
+
+
+def mk_vs(p):
+    p = json.loads(json.dumps(p))
+    ix = norm_ix(p["ix"])
+    p["ix"] = [list(t) for t in ix]
+    shape = p["shape"]
+    pos = IX.expand(ix, shape)
+    if p["mode"] == "field" and any(len(q) == 0 for q in pos):
+        p["mode"] = "parts"  # Field.__getitem__ refuses an empty subspace by design
+    line = f"C12.vs be={be_name(p['be'])} shape={enc_shape(shape)} ix={IX.enc_ix(ix)}"
+    tags = ["vs:be=" + str(p["be"]), "vs:mode=" + p["mode"], f"vs:rank={len(shape)}"]
+    nl = 0
+    for t, n, q in zip(ix, shape, pos):
+        if t[0] == "s" and t[3] is not None and t[3] < 0:
+            st = -t[3]
+            if not q:
+                tags.append("vs:neg-step-empty")
+            else:
+                a, b, _ = slice(t[1], t[2], t[3]).indices(n)
+                tags.append(f"vs:neg-step-residue={(a - b - 1) % st}-of-{min(st, 6)}")
+        elif t[0] in ("l", "b"):
+            nl += 1
+            if any(y == x for x, y in zip(q, q[1:])) or len(set(q)) < len(q):
+                tags.append("vs:list-repeated")
+            if any(y < x for x, y in zip(q, q[1:])):
+                tags.append("vs:list-unsorted")
+            if all(y > x for x, y in zip(q, q[1:])):
+                tags.append("vs:list-increasing")
+    tags.append(f"vs:list-axes={nl}")
+    nontrivial = any(t[0] != "s" or t[1:] != (None, None, None) for t in ix)
+    return Case("C12.vs", p, line, key=line + str(p["be"]) + p["mode"], nontrivial=nontrivial, tags=sorted(set(tags)))
+
+
+def vs_file(shape):
+    import netCDF4
+    path = os.path.join(scratch(), f"h_vs_{enc_shape(shape)}_{os.getpid()}.nc")
+    ds = netCDF4.Dataset(path, "w", format="NETCDF4")
+    ds.createDimension("bnd2", 2)
+    for k, n in enumerate(shape):
+        ds.createDimension(f"d{k}", n)
+        x = ds.createVariable(f"d{k}", "f8", (f"d{k}",))
+        x.long_name = f"axis {k}"
+        x.units = "1"
+        x.bounds = f"d{k}_bnds"
+        x[...] = np.arange(n, dtype="f8")
+        b = ds.createVariable(f"d{k}_bnds", "f8", (f"d{k}", "bnd2"))
+        b[...] = np.arange(2 * n, dtype="f8").reshape(n, 2)
+    v = ds.createVariable("v", "i4", tuple(f"d{k}" for k in range(len(shape))))
+    v.long_name = "data"
+    v[...] = np.arange(int(np.prod(shape))).reshape(shape).astype("i4")
+    ds.close()
+    return path
+
+
+def _fmt_arr(a):
+    a = np.ma.asanyarray(a)
+    if np.ma.is_masked(a):
+        return "masked"
+    return f"{fw.fmt_list(a.shape)}:{fw.fmt_list([int(x) for x in np.ma.getdata(a).flatten().tolist()])}"
+
+
+def impl_vs(c):
+    was = gc.isenabled()
+    gc.disable()
+    try:
+        return _impl_vs(c)
+    finally:
+        if was:
+            gc.enable()
+
+
+def _impl_vs(c):
+    C = cfdm()
+    p = c.payload
+    shape = p["shape"]
+    nd = len(shape)
+    ix = [tuple(t) for t in p["ix"]]
+    path = vs_file(shape)
+    base = nfd()
+    LOG.clear()
+    VLOG.clear()
+    fs = C.read(path, netcdf_backend=p["be"])
+    f = [g for g in fs if g.nc_get_variable(None) == "v"][0]
+    del fs
+    ex = dict(read_log=[(a, positions(i, s)) for (_, a, i, s) in LOG], read_fd=nfd() - base)
+    c.extra = ex
+    coords = [f.construct(f"ncvar%d{k}") for k in range(nd)]
+    ex["read_states"] = [_state(f.data)] + [_state(x.data) for x in coords] + [_state(x.bounds.data) for x in coords]
+    LOG.clear()
+    VLOG.clear()
+    py = IX.py_ix(ix)
+    out = {}
+    try:
+        if p["mode"] == "field":
+            g = f[py]
+            parts = [g.data] + [g.construct(f"ncvar%d{k}") for k in range(nd)]
+        else:
+            # (a construct refuses an empty subspace by design, Data does not)
+            pos_ = IX.expand(ix, shape)
+
+            class _Shim:
+                def __init__(self, d, b):
+                    self.data = d
+                    self.bounds = type("B", (), dict(data=b))()
+
+            parts = [f.data[py]] + [coords[k][(py[k],)] if pos_[k] else
+                                    _Shim(coords[k].data[(py[k],)], coords[k].bounds.data[(py[k],)]) for k in range(nd)]
+    except Exception as e:
+        ex["raised"] = exc_name(e)
+        ex["fd"] = nfd() - base
+        del e
+        return ex["raised"]
+    ex["fd_sub"] = nfd() - base
+    ex["log"] = [(a, positions(i, s)) for (_, a, i, s) in LOG]
+    first = {}
+    for shp, key, nm in VLOG:
+        if nm not in first:
+            try:
+                first[nm] = positions(key, shp)
+            except Exception:
+                first[nm] = None
+    ex["vfirst"] = first
+    ex["states_after"] = [_state(f.data)] + [_state(x.data) for x in coords]
+    LOG.clear()
+
+    def rd(nm):
+        q = first.get(nm)
+        return ";".join(_fmt_axis(a) for a in q) if q else "-"
+
+    def real(fn):
+        try:
+            return _fmt_arr(fn())
+        except Exception as e:
+            r = exc_name(e)
+            del e
+            return r
+
+    toks = [f"d={real(lambda: parts[0].array)} rd={rd('v')}"]
+    for k in range(nd):
+        ck = parts[1 + k]
+        toks.append(f"c{k}={real(lambda: ck.data.array)} r{k}={rd(f'd{k}')} b{k}={real(lambda: ck.bounds.data.array)}")
+    ex["post_log"] = [a for (_, a, i, s) in LOG]
+    LOG.clear()
+    # whole-array access, and access after the data have been brought into memory
+    ex["whole"] = real(lambda: f.data.array)
+    ex["whole_c"] = [real(lambda: coords[k].data.array) for k in range(nd)]
+    ex["whole_b"] = [real(lambda: coords[k].bounds.data.array) for k in range(nd)]
+    ex["mem"] = real(lambda: f.data.to_memory()[py].array)
+    ex["mem_c"] = [real(lambda: coords[k].data.to_memory()[(py[k],)].array) for k in range(nd)]
+    ex["fd"] = nfd() - base
+    ex["states_end"] = [_state(f.data)] + [_state(x.data) for x in coords]
+    return " ".join(toks)
+
+
+def oracle_vs(c):
+    p = c.payload
+    ex = c.extra
+    if not isinstance(ex, dict) or "read_log" not in ex:
+        return "implementation failed before the subspace: " + str(c.impl_out)
+    shape = p["shape"]
+    nd = len(shape)
+    ix = [tuple(t) for t in p["ix"]]
+    if ex["read_log"]:
+        return f"read fetched data of {sorted({a for a, _ in ex['read_log']})}"
+    if ex["read_fd"]:
+        return f"read left {ex['read_fd']} descriptor(s) open"
+    if any(s != "D" for s in ex["read_states"]):
+        return "read brought an array into memory"
+    if "raised" in ex:
+        return f"{ex['raised']} where eager access succeeds"
+    if ex.get("fd_sub") or ex.get("fd"):
+        return f"{ex.get('fd_sub') or ex.get('fd')} descriptor(s) left open"
+    pos = IX.expand(ix, shape)
+    whole = np.arange(int(np.prod(shape))).reshape(shape)
+    m = re.match(r"^d=(\S+) rd=(\S+)(.*)$", c.impl_out or "")
+    if not m:
+        return "unexpected output " + str(c.impl_out)[:80]
+    # ---- values: lazy subspace == eager subspace == subspace of the data in memory
+    exp = _fmt_arr(_np_take(whole, pos))
+    if m.group(1) != exp:
+        return f"subspace then realise gives {m.group(1)[:80]}, realise then subspace {exp[:80]}"
+    if ex["whole"] != _fmt_arr(whole):
+        return "whole-array access returns other values than the file holds"
+    if ex["mem"] != exp:
+        return f"to_memory changed a later subspace: {ex['mem'][:80]} instead of {exp[:80]}"
+    rest = m.group(3).split()
+    if len(rest) != 3 * nd:
+        return "unexpected output " + str(c.impl_out)[:80]
+    for k in range(nd):
+        n = shape[k]
+        cexp = _fmt_arr(np.array(pos[k]))
+        got = rest[3 * k].split("=", 1)[1]
+        if got != cexp:
+            return f"coordinate d{k}: subspace then realise gives {got[:60]}, expected {cexp[:60]}"
+        rows = np.arange(2 * n).reshape(n, 2)[pos[k]] if pos[k] else np.zeros((0, 2), dtype=int)
+        if _vs_reversed(ix[k], n) or (p["mode"] == "field" and False):
+            rows = rows[:, ::-1]
+        bexp = _fmt_arr(rows)
+        got = rest[3 * k + 2].split("=", 1)[1]
+        if got != bexp:
+            return f"bounds of d{k}: subspace then realise gives {got[:60]}, expected {bexp[:60]}"
+        if ex["whole_c"][k] != _fmt_arr(np.arange(n)) or ex["whole_b"][k] != _fmt_arr(np.arange(2 * n).reshape(n, 2)):
+            return f"whole-array access to coordinate d{k} or its bounds returns other values than the file holds"
+        if ex["mem_c"][k] != cexp:
+            return f"to_memory changed a later subspace of coordinate d{k}"
+    # ---- fetch rules at the level of the file arrays: only the part concerned, only while subspacing
+    want = {"v": elements(pos)}
+    for k in range(nd):
+        want[f"d{k}"] = elements([pos[k]])
+        want[f"d{k}_bnds"] = elements([pos[k], [0, 1]])
+    for addr, q in ex["log"]:
+        if addr not in want:
+            return f"subspace fetched from {addr}"
+        extra = elements(q) - want[addr]
+        if extra:
+            return f"subspace fetched {len(extra)} element(s) of {addr} outside the part concerned"
+    if ex["post_log"]:
+        return f"realising the subspace fetched again from {sorted(set(ex['post_log']))}"
+    # ---- and at the level of the library variable: nothing but the requested elements comes off the disk
+    # (with two or more list axes on h5py all but one list axis are read in full by design: C12_backend_reads_superset)
+    nlist = sum(1 for t in ix if t[0] in ("l", "b") and len(IX.expand([t], [shape[ix.index(t)]])[0]) != 1)
+    vf = ex.get("vfirst", {})
+    for nm, el in want.items():
+        q = vf.get(nm)
+        if q is None:
+            continue
+        if nm == "v" and nlist >= 2 and p["be"] == "h5netcdf":
+            continue
+        extra = elements(q) - el
+        if extra:
+            return f"the library was asked for {len(extra)} element(s) of {nm} outside the part concerned"
+    if any(s != "D" for s in ex["states_end"]):
+        return "the original data were brought into memory by a subspace"
+    return None
+
+
+# ================================================================ C12.dtype / C12.promote
+DTS = ["i1", "i2", "i4", "i8", "u1", "u2", "u4", "u8", "f4", "f8"]
+DT_ROLES = ["data", "dimcoord", "auxcoord", "bounds", "measure", "ancillary"]
+
+
+def _dt_neutral(a):
+    return a is None or bool(a[1])
+
+
+def _dt_exotic(*ts):
+    return "f4" in ts and "u2" in ts and ("i1" in ts or "i2" in ts)
+
+
+def dt_old_consistent(p):
+    """Mirror of the hypothesis of C12_dtype_old_partial: what the code before a007f9a got right."""
+    if not p["unpack"]:
+        return True
+    if p["uns"] and p["vt"][0] == "i":
+        return False
+    sf, ao = p["sf"], p["ao"]
+    if sf is None and ao is None:
+        return True
+    if p["role"] != "data":
+        return False
+    if _dt_neutral(sf) and _dt_neutral(ao):
+        return False
+    if sf is not None and ao is not None and _dt_exotic(p["vt"], sf[0], ao[0]):
+        return False
+    return True
+
+
+def dt_signature(p):
+    if not p["unpack"]:
+        return None
+    if p["uns"] and p["vt"][0] == "i":
+        return "advertised-dtype-ignores-unsigned-view"
+    sf, ao = p["sf"], p["ao"]
+    if sf is None and ao is None:
+        return None
+    if _dt_neutral(sf) and _dt_neutral(ao):
+        return "advertised-dtype-neutral-packing"
+    if p["role"] != "data":
+        return "advertised-dtype-packed-variable-other-than-field-data"
+    if sf is not None and ao is not None and _dt_exotic(p["vt"], sf[0], ao[0]):
+        return "advertised-dtype-promotion-order"
+    return None
+
+
+def gen_dtype(rng):
+    for _ in range(200):
+        vt = rng.choice(DTS + ["i2", "i4", "u4", "i8", "f8"])
+        r = rng.random()
+        at = lambda: rng.choice(["f4", "f4", "f4", "f8", "f8", rng.choice(DTS)])
+        sf = ao = None
+        if r < 0.3:
+            sf = [at(), int(rng.random() < 0.15)]
+        elif r < 0.4:
+            ao = [at(), int(rng.random() < 0.15)]
+        elif r < 0.8:
+            sf = [at(), int(rng.random() < 0.15)]
+            ao = [at(), int(rng.random() < 0.15)]
+        p = dict(vt=vt, sf=sf, ao=ao, uns=int(rng.random() < 0.2), role=rng.choice(DT_ROLES + ["data", "data", "data"]),
+                 unpack=int(rng.random() >= 0.12), mask=int(rng.random() >= 0.2),
+                 be=rng.choice([None, "netCDF4", "h5netcdf", "h5netcdf"]),
+                 endian=rng.choice(["native", "native", "big", "little"]), fill=int(rng.random() < 0.3),
+                 nd=rng.choice([1, 1, 2]), wr=int(rng.random() < 0.3),
+                 # (a vector-valued missing_value is left out: it becomes the fill value of the Data, and Data.equals
+                 #  then raises ValueError for lazy and in-memory data alike - C05's ground, not this property's)
+                 mv=rng.choice([None, None, None, "scalar", "scalar", "nan"]),
+                 valid=rng.choice([None, None, None, "min", "max", "range", "minmax"]))
+        if p["role"] == "data" and rng.random() < 0.08:
+            p["nd"] = 0
+        return p
+    return p
+
+
+def _enc_attr(a):
+    return "-" if a is None else f"{a[0]}:{int(bool(a[1]))}"
+
+
+def mk_dtype(p):
+    p = json.loads(json.dumps(p))
+    line = (f"C12.dtype vt={p['vt']} sf={_enc_attr(p['sf'])} ao={_enc_attr(p['ao'])} uns={p['uns']} "
+            f"data={int(p['role'] == 'data')} unpack={p['unpack']}")
+    tags = ["dtype:be=" + str(p["be"]), "dtype:role=" + p["role"], "dtype:vt=" + p["vt"],
+            "dtype:packing=" + ("none" if p["sf"] is None and p["ao"] is None else
+                                "neutral" if _dt_neutral(p["sf"]) and _dt_neutral(p["ao"]) else
+                                "+".join(x for x, a in (("scale", p["sf"]), ("offset", p["ao"])) if a is not None)),
+            "dtype:attr-types=" + "/".join(a[0] for a in (p["sf"], p["ao"]) if a is not None)]
+    if p["uns"]:
+        tags.append("dtype:_Unsigned")
+    if not p["unpack"]:
+        tags.append("dtype:unpack=False")
+    if not p["mask"]:
+        tags.append("dtype:mask=False")
+    if p["endian"] != "native":
+        tags.append("dtype:endian=" + p["endian"])
+    if p.get("wr"):
+        tags.append("dtype:also-written")
+    if p.get("mv"):
+        tags.append("dtype:missing_value=" + p["mv"])
+    if p.get("valid"):
+        tags.append("dtype:valid=" + p["valid"])
+    if p.get("fill"):
+        tags.append("dtype:_FillValue")
+    if p.get("nd") == 0:
+        tags.append("dtype:0-d")
+    sig = dt_signature(p)
+    tags.append("dtype:class=" + (sig.replace("advertised-dtype-", "") if sig else "consistent-before-a007f9a"))
+    key = json.dumps([p.get(k) for k in ("vt", "sf", "ao", "uns", "role", "unpack", "mask", "be", "endian", "fill", "nd", "wr", "mv", "valid")])
+    return Case("C12.dtype", p, line, key=key, nontrivial=True, tags=tags)
+
+
+def dtype_file(p):
+    import netCDF4
+    import warnings
+    warnings.filterwarnings("ignore", message="endian-ness of dtype")
+    path = os.path.join(scratch(), f"h_dt_{os.getpid()}.nc")
+    ds = netCDF4.Dataset(path, "w", format="NETCDF4")
+    ds.createDimension("x", 3)
+    ds.createDimension("y", 2)
+    ds.createDimension("bnd2", 2)
+    ddims = () if p["nd"] == 0 else ("x",) if p["nd"] == 1 else ("y", "x")
+    names = dict(data="v", dimcoord="x", auxcoord="a", bounds="x_bnds", measure="m", ancillary="n")
+    dims = dict(v=ddims, x=("x",), a=("x",), x_bnds=("x", "bnd2"), m=("x",), n=ddims)
+    target = names[p["role"]]
+    raw = {}
+    for nm in (("v",) if p["nd"] == 0 else ("x", "x_bnds", "a", "m", "n", "v")):
+        kw = {}
+        dt = "f8"
+        if nm == target:
+            dt = p["vt"]
+            if p["endian"] != "native":
+                kw["endian"] = p["endian"]
+            if p["fill"]:
+                kw["fill_value"] = np.array(100, dtype=dt)
+        var = ds.createVariable(nm, dt, dims[nm], **kw)
+        var.set_auto_maskandscale(False)
+        n = int(np.prod([len(ds.dimensions[d]) for d in dims[nm]]))
+        vals = np.arange(1, n + 1)
+        if nm == target:
+            if p["uns"]:
+                var.setncattr("_Unsigned", "true")
+                if dt[0] == "i":
+                    vals = vals.copy()
+                    vals[-1] = -2
+            if p["sf"] is not None:
+                var.scale_factor = np.array(1 if p["sf"][1] else 2, dtype=p["sf"][0])
+            if p["ao"] is not None:
+                var.add_offset = np.array(0 if p["ao"][1] else 3, dtype=p["ao"][0])
+            if p["fill"]:
+                vals = vals.copy()
+                vals[0] = 100
+            # missing data attributes are in the packed (stored) type
+            if p.get("mv") == "scalar":
+                var.missing_value = np.array(2, dtype=dt)
+            elif p.get("mv") == "vector":
+                var.missing_value = np.array([2, 3], dtype=dt)
+            elif p.get("mv") == "nan" and dt[0] == "f":
+                var.missing_value = np.array(np.nan, dtype=dt)
+                vals = vals.astype(dt)
+                vals[n // 2] = np.nan
+            if p.get("valid") == "min":
+                var.valid_min = np.array(2, dtype=dt)
+            elif p.get("valid") == "max":
+                var.valid_max = np.array(max(2, n - 1), dtype=dt)
+            elif p.get("valid") == "range":
+                var.valid_range = np.array([2, max(2, n - 1)], dtype=dt)
+            elif p.get("valid") == "minmax":
+                var.valid_min = np.array([1], dtype=dt)
+                var.valid_max = np.array([max(2, n - 1)], dtype=dt)
+        shp = tuple(len(ds.dimensions[d]) for d in dims[nm])
+        arr = vals.reshape(shp).astype(dt)
+        var[...] = arr
+        raw[nm] = arr
+    v = ds["v"]
+    v.standard_name = "air_temperature"
+    v.units = "K"
+    if p["nd"] == 0:
+        ds.close()
+        return path, target, raw[target]
+    v.coordinates = "a"
+    v.cell_measures = "area: m"
+    v.ancillary_variables = "n"
+    ds["x"].standard_name = "longitude"
+    ds["x"].units = "degrees_east"
+    ds["x"].bounds = "x_bnds"
+    ds["a"].standard_name = "latitude"
+    ds["a"].units = "degrees_north"
+    ds["m"].units = "km2"
+    ds["m"].long_name = "cell area"
+    ds["n"].standard_name = "air_temperature standard_error"
+    ds["n"].units = "K"
+    ds.close()
+    return path, target, raw[target]
+
+
+def _dt_find(f, target):
+    """(owner construct whose equality is tested, Data of the target variable)"""
+    if target == "v":
+        return f, f.data
+    if target == "x_bnds":
+        c = f.construct("ncvar%x")
+        return c, c.bounds.data
+    c = f.construct("ncvar%" + target)
+    return c, c.data
+
+
+def _dt_name(dt):
+    if dt is None:
+        return "None"
+    dt = np.dtype(dt)
+    return ("" if dt.byteorder in "=|" else dt.byteorder) + dt.kind + str(dt.itemsize)
+
+
+def impl_dtype(c):
+    was = gc.isenabled()
+    gc.disable()
+    try:
+        return _impl_dtype(c)
+    finally:
+        if was:
+            gc.enable()
+
+
+def _impl_dtype(c):
+    try:
+        return _impl_dtype_(c)
+    except fw.HarnessError:
+        raise
+    except Exception as e:
+        # keep what has been observed so far (the netCDF4-python reference) for the oracle and for classify
+        if isinstance(c.extra, dict):
+            c.extra["raised"] = exc_name(e) + ": " + str(e)[:100]
+            r = exc_name(e)
+            del e
+            gc.collect()
+            return r
+        raise
+
+
+def _impl_dtype_(c):
+    import netCDF4
+    C = cfdm()
+    p = c.payload
+    path, target, raw = dtype_file(p)
+    ex = dict(fails=[])
+    c.extra = ex
+    # independent reference: netCDF4-python's own unpacking / unsigned view / masking
+    ref = None
+    try:
+        ds = netCDF4.Dataset(path)
+        var = ds[target]
+        var.set_auto_maskandscale(False)
+        if p["unpack"]:
+            var.set_auto_scale(True)
+        if p["mask"]:
+            var.set_auto_mask(True)
+        ref = np.ma.asanyarray(var[...])
+        ds.close()
+        ex["ref_dtype"] = _dt_name(ref.dtype)
+        ex["ref_all_masked"] = bool(np.ma.getmaskarray(ref).all())
+    except Exception as e:
+        ex["ref_error"] = repr(e)[:80]
+        del e
+    gc.collect()
+    base = nfd()
+    kw = dict(netcdf_backend=p["be"], unpack=bool(p["unpack"]), mask=bool(p["mask"]))
+    LOG.clear()
+    f = [g for g in C.read(path, **kw) if g.nc_get_variable(None) == "v"][0]
+    owner, d = _dt_find(f, target)
+    adv = d.dtype
+    adv2 = (owner.dtype if hasattr(owner, "dtype") and target != "x_bnds" else adv)
+    if LOG:
+        ex["fails"].append(f"Data.dtype of {target} fetched data from the file")
+    if nfd() != base:
+        ex["fails"].append(f"read / dtype left {nfd() - base} descriptor(s) open")
+    arr = d.array
+    ex["arr_all_masked"] = bool(np.ma.getmaskarray(np.ma.asanyarray(arr)).all())
+    sub = d[(slice(None, None, -1),) + (slice(None),) * (d.ndim - 1)] if d.ndim else d[...]
+    tm = d.to_memory()
+    cp = d.copy()
+    ex.update(adv=_dt_name(adv), owner=_dt_name(adv2), arr=_dt_name(arr.dtype), sub_adv=_dt_name(sub.dtype),
+              sub_arr=_dt_name(sub.array.dtype), tm=_dt_name(tm.dtype), tm_arr=_dt_name(tm.array.dtype),
+              copy=_dt_name(cp.dtype), lazy_after=_state(d))
+    # lazy against in memory: the same object, and the same file read twice with one copy realised
+    try:
+        # (data with a NaN fill value do not even equal their own copy - C05's ground: the baseline is self-equality)
+        ex["self_eq"] = bool(d.equals(d.copy()))
+        ex["data_eq"] = bool(d.equals(tm) and tm.equals(d))
+        g = [h for h in C.read(path, **kw) if h.nc_get_variable(None) == "v"][0]
+        gowner, gd = _dt_find(g, target)
+        gd.to_memory(inplace=True)
+        ex["mem_state"] = _state(gd)
+        ex["owner_eq"] = bool(owner.equals(gowner) and gowner.equals(owner))
+        if p.get("wr") and owner is not f:
+            ex["field_eq"] = bool(f.equals(g) and g.equals(f))
+    except Exception as e:
+        ex["fails"].append("comparing lazy and realised data raised " + exc_name(e) + ": " + str(e)[:80])
+        del e
+        g = None
+    if nfd() != base:
+        ex["fails"].append(f"{nfd() - base} descriptor(s) left open")
+    if g is not None and p.get("wr"):
+        # a later result: what cfdm.write makes of the lazy and of the realised field (the writer itself is
+        # C01's ground: when it refuses these data nothing is compared)
+        outs = []
+        try:
+            for k, h in enumerate((f, g)):
+                out = f"{path}.w{k}.nc"
+                C.write(h, out)
+                ds = netCDF4.Dataset(out)
+                var = ds[target]
+                var.set_auto_maskandscale(False)
+                outs.append((_dt_name(var.dtype), [repr(x) for x in np.ma.getdata(var[...]).astype("f8").flatten().tolist()]))
+                ds.close()
+            ex["written"] = outs
+        except Exception as e:
+            ex["write_raised"] = exc_name(e)
+            del e
+        for k in (0, 1):
+            try:
+                os.remove(f"{path}.w{k}.nc")
+            except OSError:
+                pass
+        gc.collect()  # the writer's dataset object is only released by the cyclic collector
+        base = nfd()
+    if ref is not None:
+        a = np.ma.asanyarray(arr)
+        keep = ~np.ma.getmaskarray(a)
+        if ref.shape != a.shape:
+            ex["fails"].append(f"shape {a.shape} differs from netCDF4-python {ref.shape}")
+        elif p["uns"] and p["vt"][0] == "i" and (p["fill"] or p.get("mv") or p.get("valid")):
+            # _Unsigned together with missing-data attributes: whether those are compared before or after the
+            # unsigned view is C07's subject (cfdm's masking against netCDF4-python's), not this property's;
+            # lazy, in-memory, subspaced and twice-read data are still compared with one another below
+            pass
+        elif (np.ma.getmaskarray(ref) != np.ma.getmaskarray(a)).any():
+            ex["fails"].append(f"mask {np.ma.getmaskarray(a).astype(int).flatten().tolist()} differs from netCDF4-python "
+                               f"{np.ma.getmaskarray(ref).astype(int).flatten().tolist()}")
+        elif p["uns"] and p["vt"][0] == "i" and (p["sf"] is not None or p["ao"] is not None):
+            # _Unsigned together with scale_factor / add_offset: the two libraries take the unsigned view and the
+            # arithmetic / cast to the attribute's type in different orders (values wrap or round differently);
+            # which is right is not this property's matter - lazy, in-memory and both backends are still compared
+            pass
+        elif not np.array_equal(np.ma.getdata(a)[keep].astype("f8"), np.ma.getdata(ref)[keep].astype("f8"), equal_nan=True):
+            ex["fails"].append("values differ from netCDF4-python")
+        # lazy == in memory, element by element: the array after to_memory, and the reversed subspace
+        b = np.ma.asanyarray(tm.array)
+        if (np.ma.getmaskarray(b) != np.ma.getmaskarray(a)).any() or not np.array_equal(
+                np.ma.getdata(a)[keep].astype("f8"), np.ma.getdata(b)[keep].astype("f8"), equal_nan=True):
+            ex["fails"].append("to_memory changed the values or the mask")
+        if a.ndim:
+            r = np.ma.asanyarray(sub.array)[::-1]
+            if (np.ma.getmaskarray(r) != np.ma.getmaskarray(a)).any() or not np.array_equal(
+                    np.ma.getdata(a)[keep].astype("f8"), np.ma.getdata(r)[keep].astype("f8"), equal_nan=True):
+                ex["fails"].append("subspace then realise differs from realise then subspace")
+    if nfd() != base:
+        ex["fails"].append(f"{nfd() - base} descriptor(s) left open")
+    return f"adv={ex['adv']} del={ex['arr']}"
+
+
+def agree_dtype(c):
+    a, b = c.impl_out, c.model_out
+    ma = re.match(r"^adv=(\S+) del=(\S+)$", a or "")
+    mb = re.match(r"^adv=(\S+) del=(\S+) advold=(\S+)$", b or "")
+    if not ma or not mb:
+        return False
+    # (the driver also prints what the code before a007f9a advertised: evidence only)
+    return ma.group(2) == mb.group(2) and ma.group(1) == mb.group(1)
+
+
+def oracle_dtype(c):
+    ex = c.extra
+    if not isinstance(ex, dict) or "adv" not in ex:
+        return "reading or realising the data raised " + str((ex or {}).get("raised", c.impl_out) if isinstance(ex, dict) else c.impl_out)[:200]
+    fails = list(ex.get("fails", []))
+    if ex["adv"] != ex["arr"]:
+        fails.insert(0, f"lazy data advertise dtype {ex['adv']} but deliver {ex['arr']}")
+    for k, what in (("owner", "the construct's dtype"), ("sub_adv", "dtype of a lazy subspace"),
+                    ("sub_arr", "dtype of a realised subspace"), ("tm", "dtype after to_memory"),
+                    ("tm_arr", "dtype of the array after to_memory"), ("copy", "dtype of a copy")):
+        if ex.get(k) != ex["arr"]:
+            fails.append(f"{what} is {ex.get(k)}, the array's {ex['arr']}")
+    if ex["arr"][0] in "<>":
+        fails.append("delivered data are not in the native byte order")
+    if ex.get("data_eq") is False and ex.get("self_eq"):
+        fails.append("to_memory changed equality of the data")
+    if (ex.get("owner_eq") is False or ex.get("field_eq") is False) and ex.get("self_eq"):
+        fails.append("the same file read twice no longer equals itself once one copy is brought into memory")
+    w = ex.get("written")
+    if w and w[0] != w[1]:
+        fails.append(f"cfdm.write of the lazy field stores {w[0][0]} {w[0][1][:3]}, of the realised field {w[1][0]} {w[1][1][:3]}")
+    if ex.get("lazy_after") != "D":
+        fails.append("inspecting the data brought the original into memory")
+    if fails:
+        ex["fails_all"] = fails
+        return "; ".join(fails[:3])[:500]
+    return None
+
+
+def mk_promote(p):
+    line = f"C12.promote a={p['a']} b={p['b']}"
+    return Case("C12.promote", dict(p), line, key=line, nontrivial=p["a"] != p["b"], tags=["promote"])
+
+
+def impl_promote(c):
+    p = c.payload
+    a, b = np.dtype(p["a"]), np.dtype(p["b"])
+    return f"rt={_dt_name(np.result_type(a, b))} safe={int(np.can_cast(a, b, casting='safe'))}"
+
+
 # ================================================================ plumbing
 def gen(rng, tier, n):
-    n_hist = int(n * 0.70)
-    n_read = int(n * 0.22)
-    n_err = max(4, n - n_hist - n_read)
+    n_hist = int(n * 0.44)
+    n_vs = int(n * 0.20)
+    n_dt = int(n * 0.14)
+    n_read = int(n * 0.16)
+    n_err = max(4, n - n_hist - n_vs - n_dt - n_read)
+    # (the promotion table of the dtype model is compared with numpy for all 100 pairs through corpus/C12.jsonl)
     for _ in range(n_hist):
         yield mk_hist(gen_hist(rng))
+    for _ in range(n_vs):
+        yield mk_vs(gen_vs(rng))
+    for _ in range(n_dt):
+        yield mk_dtype(gen_dtype(rng))
     for _ in range(n_read):
         yield mk_read(gen_read(rng))
     for _ in range(n_err):
@@ -1701,7 +2479,8 @@ def gen(rng, tier, n):
 
 
 def from_payload(stream, payload):
-    return {"C12.hist": mk_hist, "C12.read": mk_read, "C12.err": mk_err}[stream](payload)
+    return {"C12.hist": mk_hist, "C12.read": mk_read, "C12.err": mk_err, "C12.vs": mk_vs, "C12.dtype": mk_dtype,
+            "C12.promote": mk_promote}[stream](payload)
 
 
 def _impl(c):
@@ -1711,6 +2490,10 @@ def _impl(c):
         return impl_read(c)
     if c.stream == "C12.err":
         return impl_err(c)
+    if c.stream == "C12.vs":
+        return impl_vs(c)
+    if c.stream == "C12.dtype":
+        return impl_dtype(c)
     raise fw.HarnessError("unknown stream " + c.stream)
 
 
@@ -1721,6 +2504,8 @@ def impl(c):
     import pickle
     import select
     import signal
+    if c.stream == "C12.promote":
+        return impl_promote(c)
     cfdm()  # import (and instrument) once, in the parent
     if c.stream in ("C12.read",):
         build_file(c.payload)
@@ -1768,7 +2553,7 @@ def impl(c):
                 pass
     else:
         import glob
-        for q in glob.glob(os.path.join(scratch(), f"[he]_*_{pid}.nc*")):
+        for q in glob.glob(os.path.join(scratch(), f"[he]_*_{pid}.nc*")):  # (h_vs_*, h_dt_* included)
             try:
                 os.remove(q)
             except OSError:
@@ -1806,6 +2591,10 @@ def agree(c):
         return agree_hist(c)
     if c.stream == "C12.read":
         return agree_read(c)
+    if c.stream == "C12.dtype":
+        return agree_dtype(c)
+    if c.stream in ("C12.vs", "C12.promote"):
+        return c.impl_out == c.model_out
     return True
 
 
@@ -1817,6 +2606,12 @@ def oracle(c):
         return r
     if c.stream == "C12.read":
         return oracle_read(c)
+    if c.stream == "C12.vs":
+        return oracle_vs(c)
+    if c.stream == "C12.dtype":
+        return oracle_dtype(c)
+    if c.stream == "C12.promote":
+        return None
     if c.stream == "C12.err":
         f = (c.extra or {}).get("fails")
         return "; ".join(f[:3]) if f else None
@@ -1825,7 +2620,8 @@ def oracle(c):
 
 def _coarse(f):
     """Grouping label for failures that match no recorded finding (never listed as known: always a VIOLATION)."""
-    for pat, lab in (("crashed", "interpreter-crash"), ("died with signal", "interpreter-crash"),
+    for pat, lab in (("advertise", "lazy-dtype-differs-from-delivered"), ("library was asked", "fetch-beyond-what-is-inspected"),
+                     ("crashed", "interpreter-crash"), ("died with signal", "interpreter-crash"),
                      ("descriptor", "descriptor-left-open"), ("fetched", "fetch-beyond-what-is-inspected"),
                      ("into memory", "array-brought-into-memory"), ("backends", "backends-differ"),
                      ("backend", "backends-differ"), ("netCDF4", "differs-from-netCDF4-python"),
@@ -1849,6 +2645,15 @@ def _classify(c):
         m = re.search(r"KNOWN (\S+)", f)
         if m:
             return m.group(1)
+        return None
+    if c.stream == "C12.dtype":
+        # the one recorded data-type finding: a 0-d variable whose value is missing comes back as the numpy masked
+        # constant, float64 whatever the variable's type, wherever nothing casts it afterwards
+        ex = c.extra if isinstance(c.extra, dict) else {}
+        mb0 = re.match(r"^adv=(\S+) del=(\S+) advold=(\S+)$", c.model_out or "")
+        if p.get("nd") == 0 and (ex.get("arr_all_masked") or ex.get("ref_all_masked")) and mb0 and ex.get("arr") == "f8" \
+                and mb0.group(2) != "f8" and ex.get("adv") == mb0.group(1) and not ex.get("fails"):
+            return "masked-0d-variable-masked-constant"
         return None
     if c.stream == "C12.err":
         if p["kind"] == "readraises" and "raised" in f and "descriptor(s) open" in f:
@@ -1876,9 +2681,11 @@ def _classify(c):
                 sigs.add("unpack-false-packed-variable-advertises-unpacked-dtype")
             elif "[nodesFlat] into memory" in s:
                 sigs.add("read-realises-geometry-node-coordinates-without-part-node-count")
+            elif "[connS] into memory" in s:
+                sigs.add("read-realises-ugrid-connectivity-with-nonzero-start-index")
             elif "[connT] into memory" in s:
                 sigs.add("read-realises-ugrid-connectivity-stored-cell-dimension-last")
-            elif ("conn" in kinds or "connT" in kinds) and "h5netcdf" in s and ("raised:backend" in s or "TypeError" in s):
+            elif ("conn" in kinds or "connT" in kinds or "connS" in kinds) and "h5netcdf" in s and ("raised:backend" in s or "TypeError" in s):
                 sigs.add("h5netcdf-ugrid-cell-bounds-unsorted-node-indices")
             else:
                 sigs.add(None)
@@ -1920,7 +2727,7 @@ def shrink(c, run):
         changed = False
         for k in range(len(ops) - 1):
             # an op that creates a handle cannot be dropped without renumbering: only drop non-creating ones
-            if ops[k][0] in ("copy", "sub") or (ops[k][0] in ("tomem", "tr", "ins") and not ops[k][2]):
+            if ops[k][0] in ("copy", "sub") or (ops[k][0] in ("tomem", "tr", "ins", "sq", "fl") and not ops[k][2]):
                 continue
             q = dict(p, ops=ops[:k] + ops[k + 1:])
             cc = fails(q)
